@@ -61,7 +61,7 @@ struct RunCfg {
 
 enum StepKind {
   S_REQ = 1, S_ADV, S_STALL, S_CANCEL, S_NETOP, S_FAULT, S_FORGE, S_SETSRV, S_REINIT, S_CHUNK, S_PARTITION, S_SRCADDR,
-  S_COOKIECTL, S_FILE, S_INOTIFY, S_WAITEMPTY, S_THINK, S_DUP, S_SAVEOPT, S_CSVROUND, S_SORTLIST, S_LOCAL, S_QUERYINFO, S_HEAL, S_NKINDS
+  S_COOKIECTL, S_FILE, S_INOTIFY, S_WAITEMPTY, S_THINK, S_DUP, S_SAVEOPT, S_CSVROUND, S_SORTLIST, S_LOCAL, S_QUERYINFO, S_HEAL, S_ZERODGRAM, S_NKINDS
 };
 extern const char *step_name[S_NKINDS];
 struct Step { int k = 0; int64_t a = 0, b = 0, c = 0, d = 0; int thr = 0; };
@@ -171,6 +171,7 @@ struct Run {
   void complete(int token, int status, int timeouts, Delivered &d);
   void do_cancel(int chan);
   void process_ready(int chan, int subset_sel, bool skip_non_fd = false);
+  bool ready_now(int chan);
   int64_t hint_time(int chan);   // absolute time of ares_timeout() hint or -1
   void check_invariants(const char *where);
   void violate(const char *prop, const char *oracle, const std::string &detail);
